@@ -86,6 +86,24 @@ pub fn run(cfg: &Cfg, out: &mut Out) {
                 out.line("c14.free", &args, &imp, &fr_s, tag);
             }
         }
+        // the char-pattern forms of the same operations
+        for c in ['a', 'é', '-', ' '] {
+            for op in crate::c13::char_ops(c) {
+                if matches!(op, Op::SplitC(_) | Op::RSplitC(_) | Op::SplitKeepC(_)) {
+                    continue;
+                }
+                if let Some(fr) = free_fn(s, op) {
+                    let args = format!("{} {}", hex(s.as_bytes()), op.desc());
+                    let imp = parser_one(s, op);
+                    let fr_s = match fr {
+                        Some(r) => format!("ok({})", hex(r.as_bytes())),
+                        None => "err".to_string(),
+                    };
+                    let tag = if fr.map_or(true, |r| r.len() != s.len()) { "effect" } else { "-" };
+                    out.line("c14.free", &args, &imp, &fr_s, tag);
+                }
+            }
+        }
         for d in ["-", "a", "ab", "é", "--"] {
             for kind in ["split", "rsplit", "split_terminator", "rsplit_terminator"] {
                 let args = format!("{} {} {}", hex(s.as_bytes()), hex(d.as_bytes()), kind);
